@@ -4,7 +4,7 @@
    Vocabulary (coq/Secrets/Model.v, Spec.v):
      run cadel h        state of store + secrets directory after the history h of AddOrUpdateSecret /
                         DeleteSecret / GetSecret / Ingress-with-JWT-or-basic-auth-annotation operations;
-                        cadel = false: Configurator.DeleteSecret as it stands, true: repaired (fixes/F30.diff)
+                        cadel = false: Configurator.DeleteSecret as it stands, true: repaired (fixes/F34.diff)
      cur h k, asked h k the current version of Secret k, and whether k was asked for since it was last
                         invalid or absent -- both defined on the history alone
      names_of_key k     the file names derivable from k: ns-name, ns-name-ca.crt, ns-name-ca.crl
@@ -14,7 +14,7 @@
    Validity of a version (vvalid) and its derived bytes are data of each operation: all theorems
    quantify over them. *)
 From Coq Require Import List ZArith String Bool.
-From NIC Require Import Base.SMap Secrets.Model Secrets.Spec Secrets.ProofsNames Secrets.Proofs Secrets.ProofsMore.
+From NIC Require Import Base.SMap Secrets.Model Secrets.Spec Secrets.ProofsNames Secrets.Proofs Secrets.ProofsMore Secrets.ProofsCtl.
 Import ListNotations.
 
 (* Every file in the secrets directory, after every admissible history, is the derivation of the
@@ -171,7 +171,7 @@ Theorem C11_collision_delete_refuted :
 Proof. exact secret_file_name_delete_refuted. Qed.
 Print Assumptions C11_collision_delete_refuted.
 
-(* REFUTED for the code as it stands (finding F30): the files of a CA secret survive its deletion;
+(* REFUTED for the code as it stands (finding F34): the files of a CA secret survive its deletion;
    with the repaired DeleteSecret the same history leaves an empty directory. *)
 Theorem C11_delete_removes_refuted_for_ca :
   cur h_ca_leak "default/x"%string = None /\
@@ -182,7 +182,7 @@ Theorem C11_delete_removes_refuted_for_ca :
 Proof. exact ca_files_leak_refuted. Qed.
 Print Assumptions C11_delete_removes_refuted_for_ca.
 
-(* REFUTED without the immutability of Secret.type (finding F31): jwk -> oidc under the same key *)
+(* REFUTED without the immutability of Secret.type (finding F35): jwk -> oidc under the same key *)
 Theorem C11_type_change_refuted :
   forall cadel,
     cur h_retype "default/x"%string = Some vO /\
@@ -192,7 +192,7 @@ Theorem C11_type_change_refuted :
 Proof. exact type_change_refuted. Qed.
 Print Assumptions C11_type_change_refuted.
 
-(* REFUTED inside one dash-free namespace (finding F32): CA secret x and Secret x-ca.crt *)
+(* REFUTED inside one dash-free namespace (finding F36): CA secret x and Secret x-ca.crt *)
 Theorem C11_ca_suffix_collision_refuted :
   no_dash "default"%string /\
   In "default-x-ca.crt"%string (names_of_key "default/x"%string) /\
@@ -211,6 +211,58 @@ Theorem C11_spec_decides :
 Proof. exact key_ok_iff. Qed.
 Print Assumptions C11_spec_decides.
 
+(* ---- the controller in front of the store (createSecretHandlers, work queue, syncSecret) ----
+   crun cinit h   a cluster-level history h (object created/updated, deleted, worker drains the
+                  queue, a resource looks a Secret up) run through the model of handlers + queue +
+                  syncSecret: final informer store / queue, and the store-level history it amounts to
+                  (compile h).  chist_ok: ValidateSecret rejects unsupported types, an update keeps
+                  the type.  All theorems above apply to [compile h]; these connect them to the cluster. *)
+
+(* For every Secret with no outstanding task: what the store holds as its current version is the
+   object the cluster holds, or neither side has a valid version -- although the handlers drop
+   every event about a Secret of an unsupported type. *)
+Theorem C11_controller_agrees :
+  forall (h : list cev) (k : string),
+    chist_ok cinit h -> in_pendb k (c_pend (fst (crun cinit h))) = false ->
+    agree1 (c_objs (fst (crun cinit h)) k) (cur (compile h) k).
+Proof. exact controller_agrees. Qed.
+Print Assumptions C11_controller_agrees.
+
+(* a file under one of k's names is the derivation of the valid object the CLUSTER holds now *)
+Theorem C11_controller_file_is_current :
+  forall (cadel : bool) (U : string -> Prop),
+    (forall k1 k2, U k1 -> U k2 -> k1 <> k2 -> names_disjoint k1 k2) ->
+    forall (h : list cev) (k f : string) (c : file),
+      chist_ok cinit h -> hist_ok cadel U gempty (compile h) -> U k ->
+      in_pendb k (c_pend (fst (crun cinit h))) = false ->
+      In f (names_of_key k) -> lookup f (files (run cadel (compile h))) = Some c ->
+      exists v, c_objs (fst (crun cinit h)) k = Some v /\ vvalid v = true /\
+                assoc f (derived (key_to_fname k) v) = Some c.
+Proof. exact controller_file_is_current. Qed.
+Print Assumptions C11_controller_file_is_current.
+
+(* the cluster holds no valid object under k (deleted, invalid, re-created with an unsupported
+   type ...) and the worker has caught up: none of k's files exists *)
+Theorem C11_controller_gone_means_removed :
+  forall (cadel : bool) (U : string -> Prop),
+    (forall k1 k2, U k1 -> U k2 -> k1 <> k2 -> names_disjoint k1 k2) ->
+    forall (h : list cev) (k : string),
+      chist_ok cinit h -> hist_ok cadel U gempty (compile h) -> U k ->
+      in_pendb k (c_pend (fst (crun cinit h))) = false ->
+      dead (c_objs (fst (crun cinit h)) k) ->
+      forall f, In f (names_of_key k) -> lookup f (files (run cadel (compile h))) = None.
+Proof. exact controller_gone_means_removed. Qed.
+Print Assumptions C11_controller_gone_means_removed.
+
+(* and a reference reports an error exactly when the cluster holds no valid object *)
+Theorem C11_controller_get_reports_error :
+  forall (cadel : bool) (h : list cev) (k : string) (st' : state) (p : string) (e : bool),
+    chist_ok cinit h -> in_pendb k (c_pend (fst (crun cinit h))) = false ->
+    step cadel (run cadel (compile h)) (Get k) = (st', Some (p, e)) ->
+    e = deadb (c_objs (fst (crun cinit h)) k).
+Proof. exact controller_get_reports_error. Qed.
+Print Assumptions C11_controller_get_reports_error.
+
 (* The hypotheses are satisfiable by a non-trivial history: three Secrets (TLS updated after
    being materialised; JWK referenced by an Ingress while invalid, then made valid; CA), ending
    with four files in the directory. *)
@@ -221,3 +273,14 @@ Example C11_example_files :
   [("default-s1", (mode_rw_only, "B")); ("prod-ca-ca.crl", (mode_rw_only, "CRL"));
    ("prod-ca-ca.crt", (mode_rw_only, "CRT")); ("team-j", (mode_jwk, "J"))]%string.
 Proof. exact h_example_files. Qed.
+
+(* the scenario of a TLS Secret in use that is deleted and re-created as Opaque before the worker
+   runs: admissible, the worker performs one update with the Opaque object, the file goes and the
+   reference reports the error *)
+Example C11_example_recreated_unsupported :
+  chist_ok cinit ch_recreated /\
+  compile ch_recreated = [Upsert "default" "x" vA; Get "default/x"; Upsert "default" "x" vOpaque]%string /\
+  files (run false (compile (firstn 3 ch_recreated))) = [("default-x", (mode_rw_only, "A"))]%string /\
+  files (run false (compile ch_recreated)) = [] /\
+  snd (step false (run false (compile ch_recreated)) (Get "default/x"%string)) = Some (""%string, true).
+Proof. exact ch_recreated_ok. Qed.
